@@ -595,7 +595,9 @@ class C20:
         if len(evs) < 2:
             raise HarnessError('C20: could not evaluate the generated fact file:\n' + out[-3000:])
         stats = [int(x) for x in re.findall(r'\d+', evs[0])]
-        fails = [tuple(int(v) for v in t) for t in re.findall(r'\((\d+),\s*(\d+),\s*(\d+)\)', evs[1])]
+        fails = [tuple(int(v) for v in t) for t in re.findall(r'\(\s*(\d+)\s*,\s*(\d+)\s*,\s*(\d+)\s*\)', evs[1])]
+        if len(stats) < 11 or stats[10] != len(fails):
+            raise HarnessError('C20: Coq reports %s failing references, %d were parsed' % (stats[10:11], len(fails)))
         if stats[0] != len(w.lrefs):
             raise HarnessError('C20: Coq sees %d references, the translator %d' % (stats[0], len(w.lrefs)))
         self.failing = []
@@ -797,7 +799,12 @@ class C20:
         runs = []
         for tag in [0, 1, 2, 3, 5] + ([4] if intv else []):
             V = Variant(tag, tag == 4)
-            f, a, kw = build(m, c, V)
+            try:
+                f, a, kw = build(m, c, V)
+            except (ImportError, AttributeError, KeyError) as e:     # the public function / enum member no longer exists
+                runs.append([tag, True, [8] + [ord(ch) for ch in type(e).__name__[:20]]])
+                c['missing'] = True
+                continue
             V.snapshot()
             dsnap = defaults_of(f)
             st, val = call(f, *a, **kw)
@@ -810,7 +817,7 @@ class C20:
                 enc(val, out)
             runs.append([tag, bool(unchanged), out])
         c['runs'] = runs
-        c['raised'] = runs[0][2][0] == 7
+        c['raised'] = runs[0][2][0] in (7, 8)
         return c
 
     def local_only(self, i):
@@ -846,7 +853,7 @@ class C20:
         if c['kind'] == 'link':
             return {'kind': 'link', 'link_ref_kind': c['ref'][0], 'link_live_verdict': c.get('live')}
         if c['kind'] == 'dyn':
-            return {'kind': 'dyn', 'dyn_function': c['fn'], 'dyn_int64_variant': c.get('intvals'), 'dyn_outcome': 'raised' if c.get('raised') else 'returned',
+            return {'kind': 'dyn', 'dyn_function': c['fn'], 'dyn_int64_variant': c.get('intvals'), 'dyn_outcome': 'function missing' if c.get('missing') else 'raised' if c.get('raised') else 'returned',
                     'dyn_family': c.get('family'), 'n': len(c['points']) // 8 * 8}
         return {'kind': c['kind']}
 
